@@ -13,6 +13,7 @@ import (
 // wake-up, no self-deadlock (the mutex model asserts when the holder locks again).
 
 type c05World struct {
+	inflight int // deferred I/O operations not completed yet (counted by Pending() too)
 	ioc     *IO
 	posted  int
 	ran     [6]int
@@ -46,7 +47,7 @@ func (w *c05World) post(depth int) {
 }
 
 func (w *c05World) check() {
-	vf.Assert("pending-counts-posts-not-run", w.ioc.Pending() == int64(w.posted-w.nran))
+	vf.Assert("pending-counts-posts-not-run", w.ioc.Pending() == int64(w.posted-w.nran+w.inflight))
 	vf.Assert("posted-counts-posts-not-run", w.ioc.Posted() == w.posted-w.nran)
 	for i := 0; i+1 < w.nran; i++ {
 		vf.Assert("handlers-run-in-posting-order", w.order[i] < w.order[i+1])
@@ -89,8 +90,10 @@ func VerifC05_PostFromCallback() {
 	w.ioc.Dispatched = MaxCallbackDispatch
 	vf.Unwind(16)
 	done := 0
+	w.inflight = 1
 	f.AsyncRead(make([]byte, 2), func(error, int) {
 		done++
+		w.inflight = 0
 		w.post(0)
 	})
 	w.ioc.Dispatched = 0
